@@ -551,7 +551,11 @@ class Models(object):
     def np_full(self, shape, fill_value, dtype=None, **kw):
         if isinstance(fill_value, Arr):
             return broadcast_to(fill_value, _shape_arg(shape)).copy()
-        return self._filled(shape, fill_value)
+        if dtype is not None:
+            return self._filled(shape, fill_value, _kind_of_dtype(dtype))
+        # without dtype the array takes the dtype of the fill value (an integer fill value gives an integer array)
+        k = ndarr.elem_dtype_kind(fill_value)
+        return self._filled(shape, fill_value, k if k in ('i', 'c') else 'f')
 
     def np_zeros_like(self, x, dtype=None, **kw):
         return self._filled(shape_of(x), 0, _kind_of_dtype(dtype))
